@@ -71,6 +71,8 @@ KERNELS = {
     "generate_ordered_map_to_left_right_unique": {"owner": "C19", "mutated": [2]},
     "ordered_inner_map_both_unique": {"owner": "C19", "mutated": [2, 3]},      # returns None
     "ordered_inner_map_result_size": {"owner": "C19"},
+    "ordered_inner_map_left_unique": {"owner": "C19", "mutated": [2, 3]},      # returns None
+    "ordered_inner_map": {"owner": "C19", "mutated": [2, 3]},                  # returns None
 }
 C08_NOSRC = ("apply_spans_count", "apply_spans_index_of_first", "apply_spans_index_of_last")
 C08_REDUCE = ("apply_spans_count", "apply_spans_first", "apply_spans_last", "apply_spans_max", "apply_spans_min",
@@ -1024,14 +1026,42 @@ def random_c19(rng, n_cases):
     out = []
     for t in range(n_cases):
         nl, nr = rng.randrange(0, 12), rng.randrange(0, 12)
-        if t % 4 == 3:
+        if t % 6 in (4, 5):
+            lu = t % 6 == 4
+            left, right = _sorted_keys(rng, nl, lu), _sorted_keys(rng, nr, False)
+            if rng.random() < 0.1:
+                left = [rng.randrange(0, 4) for _ in range(nl)]           # not sorted / not unique: subscripts still guarded
+            # the number of pairs the kernel writes (its own control flow on these arrays)
+            i = j = pairs = 0
+            while i < len(left) and j < len(right):
+                if left[i] < right[j]:
+                    i += 1
+                elif left[i] > right[j]:
+                    j += 1
+                else:
+                    ci, cj = i, j
+                    if not lu:
+                        while ci + 1 < len(left) and left[ci + 1] == left[ci]:
+                            ci += 1
+                    while cj + 1 < len(right) and right[cj + 1] == right[cj]:
+                        cj += 1
+                    pairs += (ci - i + 1) * (cj - j + 1)
+                    i, j = ci + 1, cj + 1
+            cl, cr = (pairs + rng.randrange(0, 3) for _ in range(2))
+            short = rng.random() < 0.1 and pairs > 0
+            if short:
+                cl = rng.randrange(0, pairs)
+            out.append(gcase("ordered_inner_map_left_unique" if lu else "ordered_inner_map",
+                             [arr(left), arr(right), arr([7] * cl), arr([8] * cr)], unsafe=short, fuel=nl + nr + 1, _from="random"))
+            continue
+        if t % 6 == 3:
             # every subscript is guarded by a length test: no call is `_unsafe`, sorted or not
             left, right = _sorted_keys(rng, nl, False), _sorted_keys(rng, nr, False)
             if rng.random() < 0.15:
                 left = [rng.randrange(-3, 4) for _ in range(nl)]
             out.append(gcase("ordered_inner_map_result_size", [arr(left), arr(right)], fuel=nl + nr + 1, _from="random"))
             continue
-        if t % 3 == 2:
+        if t % 6 == 2:
             left, right = _sorted_keys(rng, nl, True), _sorted_keys(rng, nr, True)
             if rng.random() < 0.1:
                 right = [rng.randrange(0, 6) for _ in range(nr)]
@@ -1043,7 +1073,7 @@ def random_c19(rng, n_cases):
             out.append(gcase("ordered_inner_map_both_unique", [arr(left), arr(right), arr([7] * cl), arr([8] * cr)],
                              unsafe=short or len(set(right)) != len(right), fuel=nl + nr + 1, _from="random"))
             continue
-        bu = t % 3 == 0
+        bu = t % 6 == 0
         first = _sorted_keys(rng, nl, bu)
         second = _sorted_keys(rng, nr, True)
         if rng.random() < 0.1:                       # keys that are not sorted / not unique: every subscript is still guarded
